@@ -65,7 +65,7 @@ func Fold(txs []*MTx, decide func(tx *MTx, predicted bool) bool) *Model {
 				c := cfg(t).Clone()
 				c.ApplyOps(tx.Ops[t])
 				cand[t] = c
-				if c.Invalid() {
+				if c.InvalidFor(PoisonFor(t)) {
 					ok = false
 				}
 			}
